@@ -6,7 +6,7 @@ From J5V.model Require Import RulesDecl RulesWrite RulesRead RulesEnum RulesSpec
 From J5V.gen Require Id62Gen RulesGen.
 From J5V.model Require Import ProtoPrint ProtoPrintFile ProtoParseFile.
 From J5V.proofs Require Import RulesProofs RulesReadProofs RulesGenProofs RulesReadGenProofs.
-From J5V.model Require Import RulesView.
+From J5V.model Require Import RulesView RulesTextModel ProtoPrintFileWf.
 From J5V.proofs Require Import ProtoPrintFileSemProofs ProtoPrintFileFullProofs RulesViewProofs RulesTextProofs.
 Import ListNotations.
 Local Open Scope N_scope.
@@ -138,6 +138,24 @@ Theorem C04_text_concrete : forall env imp D,
         read_object env (map view_field (body_fields body')) = read_object env (map view_field (body_fields body)).
 Proof. exact c04_text_concrete. Qed.
 Print Assumptions C04_text_concrete.
+
+(* ... and with the two hypotheses about the descriptor DECIDED: [wf_dfile_b] (family
+   tool's checker of the printer / parser theorem's domain, sound by
+   wf_dfile_b_sound) and [file_in_order_b] (bodies listed in print order). The C04File
+   stream evaluates both on the real descriptor of every generated compile unit, and
+   compares [RulesTextModel.read_msg_text] (this chain, computed) with what the real
+   reflector reads from the really printed and re-parsed text. *)
+Theorem C04_text_checked : forall env imp D,
+  wf_dfile_b imp D = true -> file_in_order_b D = true ->
+  exists D',
+    parse_file_tokens imp (print_file_tokens (to_symtab (dfile_symtab imp D)) D) = Some D' /\
+    forall k c n o body,
+      In (DMsg k c n o body) (d_body D) ->
+      exists k' o' body',
+        In (DMsg k' c n o' body') (d_body D') /\
+        read_object env (map view_field (body_fields body')) = read_object env (map view_field (body_fields body)).
+Proof. exact c04_text_checked. Qed.
+Print Assumptions C04_text_checked.
 
 Theorem C04_view_reads_content : forall f f', field_equiv f f' -> view_field f = view_field f'.
 Proof. exact view_field_content. Qed.
